@@ -5,15 +5,19 @@ pub type Idx = Seq<InnerIdxDto>;
 /// the in-memory index of one log file: entry j marks record number j*interval; offsets grow
 pub open spec fn idx_wf(ix: Idx, interval: int) -> bool {
     &&& ix.len() >= 1 && interval > 0
-    &&& forall|j: int| 0 < j < ix.len() ==> #[trigger] ix[j].log_index == ix[j - 1].log_index + interval
-    &&& forall|j: int| 0 < j < ix.len() ==> #[trigger] ix[j].file_index > ix[j - 1].file_index
+    &&& forall|j: int| 0 < j < ix.len() ==> #[trigger] idx_adj(ix, interval, j)
     &&& forall|j: int| 0 <= j < ix.len() ==> #[trigger] ix[j].file_index < 0x1_0000_0000
+}
+/// entry j relative to entry j-1 (a named predicate so that the solver only unfolds it where asked: no matching loop)
+pub open spec fn idx_adj(ix: Idx, interval: int, j: int) -> bool {
+    ix[j].log_index == ix[j - 1].log_index + interval && ix[j].file_index > ix[j - 1].file_index
 }
 pub proof fn lemma_idx_mono(ix: Idx, interval: int, i: int, j: int)
     requires idx_wf(ix, interval), 0 <= i < j < ix.len()
     ensures ix[i].log_index < ix[j].log_index, ix[i].file_index < ix[j].file_index
     decreases j - i
 {
+    assert(idx_adj(ix, interval, j));
     if i + 1 < j { lemma_idx_mono(ix, interval, i, j - 1); }
 }
 
@@ -60,7 +64,7 @@ impl LogInnerManager {
     pub open spec fn wf_data(&self) -> bool {
         let d = self.data_file.contents();
         &&& self.header.index_interval > 0 && self.header.data_area_index == 4096 && self.header.first_index == self.start_index
-        &&& d.len() == self.file_len && 4096 <= self.data_cursor <= self.file_len && self.file_len < 0x1_0000_0000
+        &&& d.len() == self.file_len && 4096 <= self.data_cursor < self.file_len && self.file_len < 0x1_0000_0000
         &&& self.start_index < 0x8000_0000_0000 && self.msg_count <= self.used()
         // exactly msg_count complete records fill [4096, data_cursor)
         &&& scan(self.recs(), self.msg_count as nat) == (self.used(), self.msg_count as nat)
@@ -172,7 +176,7 @@ pub open spec fn write_data_step(o: LogInnerManager, n: LogInnerManager, body: S
     &&& 1 <= body.len() < 0x1000_0000
     &&& n.header == o.header && n.start_index == o.start_index && n.msg_count == o.msg_count + 1
     &&& n.data_cursor == o.data_cursor + enc(body.len() as nat).len() + body.len()
-    &&& n.file_len == n.data_file.contents().len() && n.data_cursor <= n.file_len && n.file_len < 0x1_0000_0000
+    &&& n.file_len == n.data_file.contents().len() && n.data_cursor < n.file_len && n.file_len < 0x1_0000_0000
     &&& appended(o.data_file.contents(), n.data_file.contents(), o.data_cursor as int, enc(body.len() as nat).add(body))
     &&& !n.need_seek_at_write && n.data_file.pos() == n.data_cursor
 }
@@ -235,11 +239,9 @@ pub proof fn lemma_write_points_push(o: LogInnerManager, n: LogInnerManager)
     assert forall|j: int| 0 <= j < ix.len() implies nx[j] == ix[j] by {}
     assert(e.log_index == ix.last().log_index + interval);
     lemma_idx_area_len(ix);
-    assert forall|j: int| 0 < j < nx.len() implies #[trigger] nx[j].log_index == nx[j - 1].log_index + interval by {
-        if j < ix.len() { assert(nx[j] == ix[j]); assert(nx[j - 1] == ix[j - 1]); }
-    }
-    assert forall|j: int| 0 < j < nx.len() implies #[trigger] nx[j].file_index > nx[j - 1].file_index by {
-        if j < ix.len() { assert(nx[j] == ix[j]); assert(nx[j - 1] == ix[j - 1]); }
+    assert forall|j: int| 0 < j < nx.len() implies #[trigger] idx_adj(nx, interval, j) by {
+        if j < ix.len() { assert(idx_adj(ix, interval, j)); assert(nx[j] == ix[j]); assert(nx[j - 1] == ix[j - 1]); }
+        else { assert(nx[j - 1] == ix.last()); }
     }
     assert forall|j: int| 0 <= j < nx.len() implies #[trigger] nx[j].file_index < 0x1_0000_0000 by {
         if j < ix.len() { assert(nx[j] == ix[j]); }
@@ -291,6 +293,294 @@ pub proof fn lemma_write_wf(o: LogInnerManager, n: LogInnerManager, body: Seq<u8
         lemma_enc_len(body.len() as nat);
         lemma_write_points_push(o, n);
         lemma_write_area_push(o, n);
+    }
+}
+
+// ------------------------------------------------------------------ truncation (strip_log_to)
+/// scanning a+b records = scanning a, then b from there
+pub proof fn lemma_scan_split(s: Seq<u8>, a: nat, b: nat)
+    requires scan(s, a).1 == a
+    ensures scan(s, a + b) == (scan(s, a).0 + scan(s.skip(scan(s, a).0), b).0, a + scan(s.skip(scan(s, a).0), b).1)
+    decreases a
+{
+    lemma_scan_bounds(s, a);
+    if a == 0 { assert(s.skip(0) =~= s); } else {
+        match first_rec(s) {
+            Some(m) => {
+                lemma_first_rec_bounds(s);
+                let s2 = s.skip(m);
+                let a1 = (a - 1) as nat;
+                lemma_scan_bounds(s2, a1);
+                assert(s2.skip(scan(s2, a1).0) =~= s.skip(scan(s, a).0));
+                lemma_scan_split(s2, a1, b);
+                assert((a + b - 1) as nat == a1 + b);
+            },
+            None => { assert(scan(s, a) == (0int, 0nat)); }
+        }
+    }
+}
+/// ok_prefixes of a suffix that starts at a record boundary
+pub proof fn lemma_ok_prefixes_suffix(s: Seq<u8>, a: nat, b: nat)
+    requires scan(s, a).1 == a, ok_prefixes(s, a + b)
+    ensures ok_prefixes(s.skip(scan(s, a).0), b)
+    decreases a
+{
+    lemma_scan_bounds(s, a);
+    if a == 0 { assert(s.skip(0) =~= s); } else {
+        match first_rec(s) {
+            Some(m) => {
+                lemma_first_rec_bounds(s);
+                let s2 = s.skip(m);
+                let a1 = (a - 1) as nat;
+                lemma_scan_bounds(s2, a1);
+                assert(s2.skip(scan(s2, a1).0) =~= s.skip(scan(s, a).0));
+                assert((a + b - 1) as nat == a1 + b);
+                lemma_ok_prefixes_suffix(s2, a1, b);
+            },
+            None => { assert(scan(s, a) == (0int, 0nat)); }
+        }
+    }
+}
+/// k complete store records followed by zeros (at least one): an ok, terminated stream whose scan stops after k
+pub proof fn lemma_records_then_zeros(s: Seq<u8>, k: nat)
+    requires scan(s, k).1 == k, ok_prefixes(s, k), scan(s, k).0 < s.len(),
+        forall|i: int| scan(s, k).0 <= i < s.len() ==> s[i] == 0u8,
+    ensures ok_stream(s), terminated(s), forall|c: nat| c >= k ==> #[trigger] scan(s, c) == scan(s, k),
+    decreases k
+{
+    lemma_scan_bounds(s, k);
+    assert(0u8 & 0x80 == 0) by(bit_vector);
+    if k == 0 {
+        assert(s[0] == 0u8);
+        assert(first_rec(s) is None);
+        assert forall|c: nat| c >= k implies #[trigger] scan(s, c) == scan(s, k) by {}
+    } else {
+        match first_rec(s) {
+            Some(m) => {
+                lemma_first_rec_bounds(s);
+                let s2 = s.skip(m);
+                let k1 = (k - 1) as nat;
+                lemma_scan_bounds(s2, k1);
+                assert forall|i: int| scan(s2, k1).0 <= i < s2.len() implies s2[i] == 0u8 by { assert(s2[i] == s[i + m]); }
+                lemma_records_then_zeros(s2, k1);
+                assert forall|c: nat| c >= k implies #[trigger] scan(s, c) == scan(s, k) by {
+                    assert(scan(s2, (c - 1) as nat) == scan(s2, k1));
+                }
+            },
+            None => { assert(scan(s, k) == (0int, 0nat)); }
+        }
+    }
+}
+
+/// index area: the bytes of the entries behind p are exactly the tail of the area
+pub proof fn lemma_idx_area_split(ix: Idx, p: int)
+    requires 0 <= p < ix.len(), exists|interval: int| idx_wf(ix, interval)
+    ensures idx_area(ix).len() == idx_area(ix.take(p + 1)).len() + idx_bytes_after(ix, p),
+        idx_area(ix).take(idx_area(ix.take(p + 1)).len() as int) == idx_area(ix.take(p + 1)),
+    decreases ix.len() - p
+{
+    if p + 1 == ix.len() {
+        assert(ix.take(p + 1) =~= ix);
+    } else {
+        let interval = choose|interval: int| idx_wf(ix, interval);
+        lemma_idx_area_split_last(ix, interval, p);
+    }
+}
+pub proof fn lemma_idx_area_split_last(ix: Idx, interval: int, p: int)
+    requires 0 <= p, p + 1 < ix.len(), idx_wf(ix, interval)
+    ensures idx_area(ix).len() == idx_area(ix.take(p + 1)).len() + idx_bytes_after(ix, p),
+        idx_area(ix).take(idx_area(ix.take(p + 1)).len() as int) == idx_area(ix.take(p + 1)),
+    decreases ix.len()
+{
+    let q = ix.len() - 1;
+    let pre = ix.drop_last();
+    let d = (ix[q].file_index - ix[q - 1].file_index) as nat;
+    assert(idx_adj(ix, interval, q));
+    lemma_enc_len_table(d);
+    assert(pre.take(p + 1) =~= ix.take(p + 1));
+    assert(idx_area(ix) == idx_area(pre).add(enc(d)));
+    lemma_idx_bytes_tail(ix, p);
+    if p + 1 == pre.len() {
+        assert(pre.take(p + 1) =~= pre);
+        assert(idx_area(ix).take(idx_area(pre).len() as int) =~= idx_area(pre));
+    } else {
+        lemma_idx_wf_take(ix, interval, q - 1);
+        assert(ix.take(q) =~= pre);
+        lemma_idx_area_split_last(pre, interval, p);
+        let l = idx_area(ix.take(p + 1)).len() as int;
+        lemma_idx_bytes_bound(pre, p);
+        assert(l <= idx_area(pre).len());
+        assert(idx_area(ix).take(l) =~= idx_area(pre).take(l));
+    }
+}
+/// idx_bytes_after peels from the back as well
+pub proof fn lemma_idx_bytes_tail(ix: Idx, p: int)
+    requires 0 <= p, p + 1 < ix.len()
+    ensures idx_bytes_after(ix, p) == idx_bytes_after(ix.drop_last(), p) + idx_entry_bytes(ix, ix.len() - 1)
+    decreases ix.len() - p
+{
+    let pre = ix.drop_last();
+    if p + 2 == ix.len() {
+        assert(idx_bytes_after(pre, p) == 0);
+        assert(idx_bytes_after(ix, p + 1) == 0);
+    } else {
+        lemma_idx_bytes_tail(ix, p + 1);
+        assert(idx_entry_bytes(pre, p + 1) == idx_entry_bytes(ix, p + 1)) by { assert(pre[p + 1] == ix[p + 1]); assert(pre[p] == ix[p]); }
+    }
+}
+
+/// what `strip_log_to` does: keep index entries 0..=p and the first k records, zero what was removed
+pub open spec fn strip_step(o: LogInnerManager, n: LogInnerManager, p: int, k: nat) -> bool {
+    let ix = o.indexs@;
+    &&& 0 <= p < ix.len() && ix[p].log_index - o.start_index <= k < o.msg_count
+    &&& (p + 1 < ix.len() ==> ix[p + 1].log_index - o.start_index > k)
+    &&& n.header == o.header && n.start_index == o.start_index && n.file_len == o.file_len && n.msg_count == k
+    &&& n.indexs@ == ix.take(p + 1)
+    &&& n.index_cursor == o.index_cursor - idx_bytes_after(ix, p)
+    &&& n.index_file.contents().len() == o.index_file.contents().len()
+    &&& forall|i: int| 0 <= i < o.index_file.contents().len() ==> #[trigger] n.index_file.contents()[i] ==
+            (if n.index_cursor <= i < o.index_cursor { 0u8 } else { o.index_file.contents()[i] })
+    &&& n.data_cursor == 4096 + scan(o.recs(), k).0
+    &&& n.data_file.contents().len() == o.data_file.contents().len()
+    &&& forall|i: int| 0 <= i < o.data_file.contents().len() ==> #[trigger] n.data_file.contents()[i] ==
+            (if i >= n.data_cursor { 0u8 } else { o.data_file.contents()[i] })
+    &&& n.current_index_count == k - (ix[p].log_index - o.start_index)
+    &&& (!n.need_seek_at_write ==> n.data_file.pos() == n.data_cursor)
+}
+
+pub proof fn lemma_strip_data(o: LogInnerManager, n: LogInnerManager, p: int, k: nat)
+    requires o.wf_data(), o.wf_points(), strip_step(o, n, p, k)
+    ensures n.wf_data(),
+        n.data_file.contents().take(n.data_cursor as int) == o.data_file.contents().take(n.data_cursor as int),
+        forall|j: nat| j <= k ==> #[trigger] scan(n.recs(), j) == scan(o.recs(), j),
+{
+    let s0 = o.recs();
+    let s1 = n.recs();
+    let k0 = o.msg_count as nat;
+    lemma_scan_mono(s0, k, k0);
+    lemma_scan_bounds(s0, k);
+    let b = scan(s0, k).0;
+    assert(n.data_file.contents().take(n.data_cursor as int) =~= o.data_file.contents().take(n.data_cursor as int));
+    assert(s1.take(b) =~= s0.take(b)) by {
+        assert forall|i: int| 0 <= i < b implies s1[i] == s0[i] by { assert(n.data_file.contents()[i + 4096] == o.data_file.contents()[i + 4096]); }
+    }
+    lemma_scan_prefix(s0, s1, k);
+    lemma_ok_stream_prefixes_mono(s0, k, k0);
+    lemma_ok_prefixes_prefix(s0, s1, k);
+    lemma_scan_count(s1, k);
+    assert(zero_from(n.data_file.contents(), n.data_cursor as int));
+    assert forall|j: nat| j <= k implies #[trigger] scan(s1, j) == scan(s0, j) by {
+        lemma_scan_mono(s0, j, k);
+        lemma_scan_bounds(s0, j);
+        assert(s1.take(scan(s0, j).0) =~= s0.take(scan(s0, j).0)) by {
+            assert forall|i: int| 0 <= i < scan(s0, j).0 implies s1[i] == s0[i] by { assert(s1.take(b)[i] == s0.take(b)[i]); }
+        }
+        lemma_scan_prefix(s0, s1, j);
+    }
+}
+
+/// two record streams scan alike for every count up to k
+#[verifier::opaque]
+pub open spec fn scans_agree(a: Seq<u8>, b: Seq<u8>, k: nat) -> bool {
+    forall|j: nat| j <= k ==> #[trigger] scan(a, j) == scan(b, j)
+}
+pub proof fn lemma_scans_agree_at(a: Seq<u8>, b: Seq<u8>, k: nat, j: nat)
+    requires scans_agree(a, b, k), j <= k
+    ensures scan(a, j) == scan(b, j)
+{
+    reveal(scans_agree);
+}
+
+pub proof fn lemma_idx_wf_take(ix: Idx, interval: int, p: int)
+    requires idx_wf(ix, interval), 0 <= p < ix.len()
+    ensures idx_wf(ix.take(p + 1), interval)
+{
+    let nx = ix.take(p + 1);
+    assert forall|j: int| 0 < j < nx.len() implies #[trigger] idx_adj(nx, interval, j) by { assert(idx_adj(ix, interval, j)); assert(nx[j] == ix[j]); assert(nx[j - 1] == ix[j - 1]); }
+    assert forall|j: int| 0 <= j < nx.len() implies #[trigger] nx[j].file_index < 0x1_0000_0000 by { assert(nx[j] == ix[j]); }
+}
+
+pub proof fn lemma_strip_points(o: LogInnerManager, n: LogInnerManager, p: int, k: nat)
+    requires o.wf_points(),
+        0 <= p < o.indexs@.len(), o.indexs@[p].log_index - o.start_index <= k < o.msg_count,
+        (p + 1 < o.indexs@.len() ==> o.indexs@[p + 1].log_index - o.start_index > k),
+        n.header == o.header, n.start_index == o.start_index, n.msg_count == k,
+        n.indexs@ == o.indexs@.take(p + 1),
+        n.current_index_count == k - (o.indexs@[p].log_index - o.start_index),
+        scans_agree(n.recs(), o.recs(), k),
+    ensures n.wf_points()
+{
+    hide(scan);
+    let ix = o.indexs@;
+    let nx = n.indexs@;
+    let interval = o.header.index_interval as int;
+    lemma_idx_wf_take(ix, interval, p);
+    assert(nx.len() == p + 1);
+    assert(nx[0] == ix[0]);
+    assert(nx.last() == ix[p]);
+    assert forall|j: int| 0 <= j < nx.len() implies n.start_index <= #[trigger] nx[j].log_index <= n.start_index + n.msg_count by {
+        assert(nx[j] == ix[j]);
+        if j < p { lemma_idx_mono(ix, interval, j, p); }
+    }
+    assert forall|j: int| 0 <= j < nx.len() implies #[trigger] nx[j].file_index - 4096 == scan(n.recs(), (nx[j].log_index - n.start_index) as nat).0 by {
+        assert(nx[j] == ix[j]);
+        if j < p { lemma_idx_mono(ix, interval, j, p); }
+        let jj = (ix[j].log_index - o.start_index) as nat;
+        assert(jj <= k);
+        lemma_scans_agree_at(n.recs(), o.recs(), k, jj);
+        assert(ix[j].file_index - 4096 == scan(o.recs(), jj).0);
+    }
+    if p + 1 < ix.len() {
+        assert(idx_adj(ix, interval, p + 1));
+    } else {
+        assert(ix.last() == ix[p]);
+    }
+}
+
+pub proof fn lemma_strip_area(o: LogInnerManager, n: LogInnerManager, p: int, k: nat)
+    requires o.wf_area(), o.wf_points(), strip_step(o, n, p, k)
+    ensures n.wf_area()
+{
+    let ix = o.indexs@;
+    let nx = n.indexs@;
+    lemma_idx_area_split(ix, p);
+    lemma_idx_bytes_bound(ix, p);
+    assert(ix.take(p + 1) =~= nx);
+    let a0 = o.index_file.contents();
+    let a1 = n.index_file.contents();
+    let l = idx_area(nx).len() as int;
+    assert(l == n.index_cursor - 32);
+    assert(a1.subrange(32, n.index_cursor as int) =~= idx_area(nx)) by {
+        assert forall|i: int| 0 <= i < l implies a1.subrange(32, n.index_cursor as int)[i] == idx_area(nx)[i] by {
+            assert(a0.subrange(32, o.index_cursor as int)[i] == a0[i + 32]);
+            assert(idx_area(ix).take(l)[i] == idx_area(ix)[i]);
+        }
+    }
+}
+
+/// C03: truncation keeps the whole data-structure invariant: the first k records and nothing else remain
+pub proof fn lemma_strip_wf(o: LogInnerManager, n: LogInnerManager, p: int, k: nat)
+    requires o.wf(), strip_step(o, n, p, k)
+    ensures n.wf(),
+        n.data_file.contents().take(n.data_cursor as int) == o.data_file.contents().take(n.data_cursor as int),
+{
+    lemma_strip_data(o, n, p, k);
+    assert(scans_agree(n.recs(), o.recs(), k)) by { reveal(scans_agree); }
+    lemma_strip_points(o, n, p, k);
+    lemma_strip_area(o, n, p, k);
+}
+
+/// ok_prefixes of fewer records
+pub proof fn lemma_ok_stream_prefixes_mono(s: Seq<u8>, j: nat, k: nat)
+    requires j <= k, ok_prefixes(s, k)
+    ensures ok_prefixes(s, j)
+    decreases j
+{
+    if j > 0 {
+        match first_rec(s) {
+            Some(n) => { lemma_first_rec_bounds(s); lemma_ok_stream_prefixes_mono(s.skip(n), (j - 1) as nat, (k - 1) as nat); },
+            None => {}
+        }
     }
 }
 
